@@ -23,8 +23,10 @@ claim("C17",
       "binary64 probabilities within 2^-56 of the written decimals, C17_float: binary64 ratio comparison = exact rational "
       "comparison for every window size up to 512). The model is tied to the code by a translator for the tables and an "
       "exhaustive differential run (>500k cases quick) of the model inside Coq against the real function with scripted draws; "
-      "an independent monitor of the property statement supplies the failing input. The integration clause (detected -> Fail, "
-      "end, fail reward) belongs to the coordinator model (C04/C05).",
+      "an independent monitor of the property statement supplies the failing input. 'The episode's history and nothing else' on "
+      "the coordinator side: defender-on sessions with several episodes on the real coordinator (followed by the coordinator "
+      "model), with a monitor that the history handed to the defender is exactly the actions answered in the current episode. "
+      "The integration clause (detected -> Fail, end, fail reward) belongs to the coordinator model (C04/C05).",
       "Trusted: Coq kernel + VM; PrimFloat primitives (listed by Print Assumptions for C17_float only); translator "
       "harness/translate/defender.py; the harness replaces the module-level name `random` to script draws; "
       "decision logic is hand-modelled and tied by exhaustive differential execution only.",
@@ -55,8 +57,10 @@ claim("C15",
       "translator and obligations as C14 (expressions that rebuild each GameState part in both decoders, as_dict literal, "
       "observation_as_dict keys) plus differential runs on random views, re-ordered documents and a malformed stream; "
       "C15_frame (every response is one JSON document + end-of-message marker whose view decodes to the view the "
-      "coordinator holds) is decided by a monitor over the raw bytes of real in-process coordinator sessions (partial: "
-      "not a theorem).",
+      "coordinator holds) is decided by monitors over the raw bytes of real in-process coordinator sessions, single-agent and "
+      "multi-agent with collective resets and faults (every CREATED, OK, FORBIDDEN and RESET_DONE response must carry the view "
+      "held for THAT agent and the view the world returned; these sessions are also followed by the coordinator model) - "
+      "partial: not a theorem.",
       "Trusted: Coq kernel + VM; std++ 1.8; translator harness/translate/codec.py; json library as premise; IPv4-only "
       "address validity; the in-process loop driver and cyst stub for the session monitor.",
       "machine-checked proof in Rocq (Coq 8.16, std++) of a Gallina codec model + source-shape translator with per-run obligations + model/code correspondence + session monitor",
@@ -189,7 +193,12 @@ claim("C19",
       "C19_all_local_all / C19_all_local ('random' = one of the recorded picks, 'all_local' = exactly the addresses of the private "
       "networks), C19_own_nets; per-run obligations on utils.ConfigParser and the start-up code (Obl/C19_defaults.v): every scalar "
       "setting is read from its documented key and falls back to the documented default (no step limit, zero rewards, one player, "
-      "switches off), and start_tasks reads each of them. The section readers (glue) are decided by correspondence: generated "
+      "switches off), and start_tasks reads each of them; M5 (Model/Config.v): the regenerated getter descriptors are interpreted "
+      "by `read` on configuration trees - C19_absent_fallback, C19_present_value, C19_escapes, and per run (Obl/C19_model.v) "
+      "C19_absent_gives_documented_default: for every getter of the source and EVERY configuration tree in which the key or a "
+      "section on its path is missing, the getter returns the documented default - tied by running generated well-formed and "
+      "malformed trees through the real getters and through the model inside Coq. A full-stack probe with dynamic addresses "
+      "checks that agents joining after re-labellings get the configured start position. The section readers (glue) are decided by correspondence: generated "
       "configurations over all subsets of optional keys go through the real ConfigParser, start_tasks and joins; parsed start "
       "position / win condition are compared with the listed items, the join reply with the configuration, the initial view with "
       "the model inside Coq and with the statement (monitor). One known finding: the documented 'all_attackers' wildcard (D25).",
@@ -223,7 +232,8 @@ claim("C20",
       "which Python wrote its sets and dictionaries - the order that varies with PYTHONHASHSEED) and C20_canonical (equal canonical "
       "encodings <-> equal views), so comparing decoded transcripts across processes is well defined. The property itself - "
       "independence of process, hash randomisation and wall-clock time, and the reproducible configuration hash - is a runtime "
-      "property no executable model exhibits; it is decided by cross-process runs: identical two-agent multi-episode probe sessions "
+      "property no executable model exhibits; it is decided by cross-process runs: identical multi-episode probe sessions (three attackers with random start hosts and a "
+      "defender, collective resets) "
       "(static and dynamic addresses, all playable shipped scenarios, several seeds) in separate interpreter processes with "
       "different PYTHONHASHSEED values must give identical decoded transcripts, address maps and hashes; hashes must differ between "
       "scenarios. Labelled partial.",
